@@ -41,6 +41,14 @@ def run(ctx):
     pairs += [("ab", "a<i>b"), ("abcd xyz", "abcd"), ("a", ""), ("foo bar", "foo baz bar"), ("12 34 56", "12 78 34")]
     for _ in range(2000 if th else 250):
         pairs.append(AC.gen_pair(rng))
+    # one text repeats a passage the other has only once (common head and tail overlap), in both directions
+    pairs += [("1 U.S. 1; 1 U.S. 1", "1 U.S. 1"), ("abab", "ab"), ("Id. at 2. Id. at 2.", "Id. at 2."), ("ab", "abab"), ("aaa", "a"), ("a", "aaa")]
+    for _ in range(300 if th else 40):
+        x = " ".join(rng.choice(["Id.", "at", "2", "1", "U.S.", "see", "x"]) for _ in range(rng.choice([1, 2, 3])))
+        sep = rng.choice(["; ", " ", ". ", "<i>", ""])
+        rep = sep.join([x] * rng.choice([2, 3]))
+        part = rng.choice([x, x + sep, sep + x, x[: max(1, len(x) // 2)], rep[: len(rep) - 1]])
+        pairs.append((rep, part) if rng.random() < 0.6 else (part, rep))
     ucases = []
     for a, b in pairs:
         for dmp in (True, False):
@@ -54,6 +62,9 @@ def run(ctx):
             steps = AC.diff_steps(a, b, dmp)
             if not AC.steps_wf(steps, a, b):
                 ctx.count("diff engine returned a script violating diff_wf")
+                ctx.divergences.append(("diff-contract", f"get_diff_steps{'' if dmp else '_builtin'} returned a script that does not account "
+                                        f"for both texts (premise steps_ok of the C10 theorems): {steps!r}",
+                                        dict(stream="updater", before=a, after=b, use_dmp=dmp)))
                 continue
             from bisect import bisect_left, bisect_right
             from eyecite.annotate import SpanUpdater
